@@ -14,6 +14,11 @@ It knows four things:
 
 Constants are protocol facts: a P2PKH input with a 72-byte signature+hashtype push and a 33-byte key is
 148 bytes, a P2PKH output 34 bytes, an empty transaction 10 bytes; DUST = 1000 dewies.
+
+One constant is the wallet's own and is taken as declared (weaker reading of "change-output cost"): lbry
+prices a prospective change output with a 32-byte placeholder hash, i.e. as 46 bytes, 12 more than the
+output it will really add.  The statement does not fix the number, so slack and per-strategy feasibility
+use CHANGE_PRICE_BYTES = 46; checks tally what the 34-byte reading would have said.
 """
 import hashlib
 import itertools
@@ -22,6 +27,7 @@ DUST = 1000
 P2PKH_INPUT_BYTES = 32 + 4 + 1 + (1 + 72 + 1 + 33) + 4     # 148
 P2PKH_OUTPUT_BYTES = 8 + 1 + 25                             # 34
 TX_OVERHEAD_BYTES = 4 + 1 + 1 + 4                           # 10 (version, two counts < 253, locktime)
+CHANGE_PRICE_BYTES = P2PKH_OUTPUT_BYTES + 12                # 46: what the wallet charges for a change output
 SLACK_CHANGE_COSTS = 6      # "a small fixed number": five balancing rounds + the change round (DESIGN A.6)
 
 OP_CLAIM_NAME = 0xb5
@@ -175,7 +181,7 @@ def min_fee(parsed, fee_per_byte, fee_per_name_char, placeholder_inputs=False):
 
 def cost_of_change(fee_per_byte):
     """What the wallet may charge for one change output: a minimal transaction carrying it."""
-    return (TX_OVERHEAD_BYTES + P2PKH_OUTPUT_BYTES) * fee_per_byte
+    return (TX_OVERHEAD_BYTES + CHANGE_PRICE_BYTES) * fee_per_byte
 
 
 def max_fee(parsed, fee_per_byte, fee_per_name_char, change_costs=SLACK_CHANGE_COSTS):
@@ -218,12 +224,12 @@ def subset_in_window(values, lo, hi):
     return any(lo <= s for s in sums if s > 0)
 
 
-def feasible(strategy, coins, need, fee_per_byte):
+def feasible(strategy, coins, need, fee_per_byte, change_bytes=CHANGE_PRICE_BYTES):
     """May `strategy` be expected to cover `need` dewies?  coins: iterable of dicts with amount, height,
     txo_type for every unspent, unreserved output of the funding accounts.  Only outputs worth more than
     the fee to spend them count (the quantifier of the property says so).  Returns (bool, explanation)."""
     fee_in = P2PKH_INPUT_BYTES * fee_per_byte
-    change = P2PKH_OUTPUT_BYTES * fee_per_byte
+    change = change_bytes * fee_per_byte
     strategy = strategy or 'standard'
     types = (TXO_OTHER,) if strategy == 'sqlite' else (TXO_OTHER, TXO_PURCHASE)
     eff = [(c['amount'] - fee_in, c['height']) for c in coins
@@ -279,10 +285,11 @@ def selftest():
              {'amount': 50000, 'height': 0, 'txo_type': 4}]
     assert feasible('standard', coins, 92600 + 42600, 50)[0] and not feasible('standard', coins, 92600 + 42601, 50)[0]
     assert feasible('only_confirmed', coins, 92600, 50)[0] and not feasible('only_confirmed', coins, 92601, 50)[0]
-    assert feasible('sqlite', coins, 92600 - 1700, 50)[0] and not feasible('sqlite', coins, 92600 - 1699, 50)[0]
-    assert feasible('closest_match', coins, 90900, 50)[0] and not feasible('closest_match', coins, 90901, 50)[0]
-    assert feasible('branch_and_bound', coins, 42600, 50)[0] and feasible('branch_and_bound', coins, 40900, 50)[0]
-    assert not feasible('branch_and_bound', coins, 40899, 50)[0]
+    assert feasible('sqlite', coins, 92600 - 2300, 50)[0] and not feasible('sqlite', coins, 92600 - 2299, 50)[0]
+    assert feasible('closest_match', coins, 90300, 50)[0] and not feasible('closest_match', coins, 90301, 50)[0]
+    assert feasible('closest_match', coins, 90900, 50, change_bytes=34)[0]
+    assert feasible('branch_and_bound', coins, 42600, 50)[0] and feasible('branch_and_bound', coins, 40300, 50)[0]
+    assert not feasible('branch_and_bound', coins, 40299, 50)[0]
     assert subset_in_window(list(range(1, 30)), 400, 400) and not subset_in_window([5] * 20, 101, 104)
     assert deficit([(1000, p2pkh)], [], 50, 0) == 1000 + 44 * 50
     assert deficit([(1000, p2pkh)], [10000], 50, 0) == 1000 + 44 * 50 - (10000 - 7400)
